@@ -191,14 +191,24 @@ def shrink(text, sig, budget=40, max_s=90):
     """smallest text found that still shows signature `sig`"""
     import time
     t_end = time.time() + max_s
-    if sig.startswith("timeout"):
-        budget = 6
+    is_to = sig.startswith("timeout")
+    if is_to:
+        budget = 8
+    original = text
 
     def ok_batch(cands):
         if time.time() > t_end:
             return None
-        if sig.startswith("timeout"):
-            cands = cands[:6]
+        if is_to:
+            # candidates are judged with a short wall clock (a hang exceeds any); the result is confirmed with the full one below
+            cands = cands[:5]
+            rs = run_texts(cands, timeout_ms=2500)
+            by = {unhx(r["hex"]): r for r in rs}
+            for c in cands:
+                r = by.get(c)
+                if r and r["class"] == "timeout":
+                    return c
+            return None
         rs = run_texts(cands)
         by = {unhx(r["hex"]): r for r in rs}
         for c in cands:
@@ -227,6 +237,10 @@ def shrink(text, sig, budget=40, max_s=90):
             else:
                 n = min(len(parts), n * 2)
         text = "".join(parts)
+    if is_to and text != original:
+        rs = run_texts([text])
+        if not (rs and rs[0]["class"] == "timeout"):
+            return original
     return text
 
 
@@ -247,23 +261,65 @@ def new_stats():
             "c04": {}, "c03": {}, "samples": [], "span_checked_diags": 0, "flaky": 0}
 
 
+def note_failures(stats, stream, r, count):
+    c04, c03 = failures(r)
+    for bucket, lst in (("c04", c04), ("c03", c03)):
+        for sig, disp, msg in lst:
+            e = stats[bucket].setdefault(sig, {"count": 0, "hex": r["hex"], "display": disp, "msg": msg[:160], "stream": stream})
+            e["count"] += count
+            if len(r["hex"]) < len(e["hex"]):
+                e.update({"hex": r["hex"], "display": disp, "msg": msg[:160], "stream": stream})
+
+
 def absorb(stats, stream, out):
+    """digest the output of one `c04 sup` run: result lines, or (exhaustive streams) the supervisor's aggregate"""
     problems = []
+    sname = stream.rstrip("0123456789")
     for line in out.split("\n"):
         if not line:
             continue
+        if line.startswith("#CUT"):
+            stats["cut_streams"] = stats.get("cut_streams", []) + [stream]
+            continue
+        if line.startswith("#SUM\t"):
+            j = json.loads(line[5:])
+            stats["evaluations"] += j["evaluations"]
+            stats["by_stream"][sname] += j["evaluations"]
+            stats["valid"] += j["valid"]
+            stats["span_checked_diags"] += j["ndiag"]
+            stats["max_bytes"] = max(stats["max_bytes"], j["max_bytes"])
+            stats["classes"].update(j["classes"])
+            stats["ntok_hist"].update({int(k): v for k, v in j["ntok_hist"].items()})
+            if "full-nosep" in stream:
+                pass        # concatenations over the full alphabet can coincide (`=`+`=` is `==`): not counted as distinct
+            elif "nosep" in stream:
+                stats["nosep_n"] = stats.get("nosep_n", 0) + j["evaluations"]
+                stats["nosep_nontrivial_n"] = stats.get("nosep_nontrivial_n", 0) + j["nontrivial"]
+            else:
+                stats["distinct_n"] += j["evaluations"]
+                stats["nontrivial_n"] += j["nontrivial"]
+            continue
+        if line.startswith("#SAMPLE\t"):
+            r = parse_result(line[8:])
+            if r and len(stats["samples"]) < 2:
+                stats["samples"].append({"src": unhx(r["hex"])[:200], "class": r["class"], "stages": r["stages"], "spans": r["spans"]})
+            continue
+        count, aggregated = 1, False
+        if line.startswith("#AGG\t"):
+            _, n, line = line.split("\t", 2)
+            count, aggregated = int(n), True
         r = parse_result(line)
         if r is None or r["class"] == "badhex":
             problems.append({"kind": "bad-line", "stream": stream, "line": line[:300]})
             continue
-        stats["evaluations"] += 1
         stats["flaky"] += "flaky=" in r["extra"]
-        stats["by_stream"][stream.rstrip("0123456789")] += 1
-        if stream.startswith("enum-full") and "nosep" not in stream or stream.startswith("enum-core") and "nosep" not in stream:
-            # exhaustive streams: texts are pairwise distinct by construction (the core/full overlap is subtracted at the end)
-            stats["distinct_n"] += 1
-            stats["nontrivial_n"] += r["ntok"] >= 2
-        elif not is_enum_text(unhx(r["hex"])):
+        if aggregated or (sname.startswith("enum") and r["class"] in ("abort", "timeout")):
+            # already counted in the #SUM line of this stream
+            note_failures(stats, stream, r, count)
+            continue
+        stats["evaluations"] += 1
+        stats["by_stream"][sname] += 1
+        if not is_enum_text(unhx(r["hex"])):
             h = hash(r["hex"])
             stats["distinct"].add(h)
             if r["ntok"] >= 2:
@@ -276,24 +332,22 @@ def absorb(stats, stream, out):
         stats["max_bytes"] = max(stats["max_bytes"], nb)
         if r["class"] == "diagnostics" and len(stats["samples"]) < 2 and r["ntok"] >= 3 and stats["evaluations"] % 997 == 5:
             stats["samples"].append({"src": unhx(r["hex"])[:200], "class": r["class"], "stages": r["stages"], "spans": r["spans"]})
-        c04, c03 = failures(r)
-        for bucket, lst in (("c04", c04), ("c03", c03)):
-            for sig, disp, msg in lst:
-                e = stats[bucket].setdefault(sig, {"count": 0, "hex": r["hex"], "display": disp, "msg": msg[:160], "stream": stream})
-                e["count"] += 1
-                if len(r["hex"]) < len(e["hex"]):
-                    e.update({"hex": r["hex"], "display": disp, "msg": msg[:160], "stream": stream})
+        note_failures(stats, stream, r, 1)
     return problems
 
 
 def merge(a, b):
     for k in ("evaluations", "valid", "span_checked_diags", "flaky", "distinct_n", "nontrivial_n"):
         a[k] += b[k]
+    for k in ("nosep_n", "nosep_nontrivial_n"):
+        a[k] = a.get(k, 0) + b.get(k, 0)
     for k in ("distinct", "nontrivial"):
         a[k] |= b[k]
     for k in ("classes", "by_stream", "ntok_hist"):
         a[k].update(b[k])
     a["max_bytes"] = max(a["max_bytes"], b["max_bytes"])
+    if b.get("cut_streams"):
+        a["cut_streams"] = a.get("cut_streams", []) + b["cut_streams"]
     a["samples"] += b["samples"][:1]
     for bucket in ("c04", "c03"):
         for sig, e in b[bucket].items():
@@ -481,15 +535,16 @@ def main(ctx, args):
     overlap_nontrivial = sum(nc ** l for l in range(2, lmin + 1)) if stats["distinct_n"] else 0
     ctx.coverage.update({
         "evaluations": stats["evaluations"],
-        "distinct_nontrivial": len(stats["nontrivial"]) + stats["nontrivial_n"] - overlap_nontrivial,
-        "rule": "one evaluation = one text run through tokenize, parse_to_expr, typecheck_with_module_info, Context::emit_bytecode and "
+        "distinct_nontrivial": len(stats["nontrivial"]) + stats["nontrivial_n"] - overlap_nontrivial + stats.get("nosep_nontrivial_n", 0),
+        "rule": "exhaustive streams are distinct by construction (the core alphabet is a prefix code; the core/full overlap is subtracted; the "
+                "separator-free full-alphabet stream is not counted); other streams are deduplicated by hash; one evaluation = one text run through tokenize, parse_to_expr, typecheck_with_module_info, Context::emit_bytecode and "
                 "Context::emit_wasm in a child process; distinct = distinct text; non-trivial = at least two syntax tokens",
         "samples": stats["samples"][:4] or [{"note": "no sample recorded (replay mode or tiny run)"}],
         "traces_validated_against_impl": span_stats["cases"],
         "model_impl_disagreements": len(span_stats["disagree"]),
         "impl_property_failures": sum(e["count"] for e in stats["c04"].values()),
         "input_distribution": {
-            "distinct_texts": len(stats["distinct"]) + stats["distinct_n"] - overlap,
+            "distinct_texts": len(stats["distinct"]) + stats["distinct_n"] - overlap + max(stats.get("nosep_n", 0) - nc - 1, 0),
             "by_stream": dict(stats["by_stream"]),
             "outcome_classes": dict(stats["classes"]),
             "texts_accepted_by_front_end": stats["valid"],
@@ -497,6 +552,7 @@ def main(ctx, args):
             "max_text_bytes": stats["max_bytes"],
             "diagnostics_whose_spans_were_checked": stats["span_checked_diags"],
             "parser_error_spans_compared_with_model": span_stats["errors"],
+            "streams_cut_after_6_hangs": stats.get("cut_streams", []),
             "aborts_or_timeouts_that_did_not_reproduce_in_a_fresh_child(verdict of the fresh child used)": stats["flaky"],
         },
         "failing_cases_by_known_finding": {known_by_sig[s]["id"]: n for s, n in hit.items()},
